@@ -17,6 +17,10 @@ import PqlModel.Props.C07OperatorIRParse
 import PqlModel.Props.C07ExprIR
 import PqlModel.Props.C07ParserIR
 import PqlModel.Props.C07OperatorIRTerm
+import PqlModel.Props.C08ErrIRUnits
+import PqlModel.Props.C08ErrIRAlgebra
+import PqlModel.Props.C08ErrIRShape
+import PqlModel.Props.C08ErrIR
 #print axioms Pql.C07.C07_precedence_table
 #print axioms Pql.C07.C07_spec_prec_eq_model
 #print axioms Pql.C07.C07_join_kinds
